@@ -46,18 +46,26 @@ def run(F, S, R, tier):
             R.bad("prov/append/index-entry", "write_index is not given (self.head_id, end offset returned by Head::write / self.head.bytes)", [ap.where()])
         K.cmp_table(R, "cmp/append/expected-number", ap, [r"call:.*Atomic(U64|::<u64>)::load$"], [r"param:number"], {"<": "ERR", "=": "CONT", ">": "ERR"}, K.classify_err(), what="only the next item number may be appended")
         K.cmp_table(R, "cmp/append/rollover", ap, [r"field:.*Head\.bytes"], [r"field:.*FreezerFiles\.max_size"], {"<": "SAME", "=": "SAME", ">": "ROLL"},
-                    K.classify_reach([FF + "open_truncated$"], "ROLL", "SAME"), what="a new data file is opened when the item does not fit", arith=(["op:add"], []))
+                    K.classify_reach([FF + "open_truncated$"], "ROLL", "SAME", S=S), what="a new data file is opened when the item does not fit", arith=(["op:add"], []))
         # rollover assigns head and head_id together, to the id that was opened
-        ot = ap.calls_to(FF + "open_truncated$")
-        live = ap.reachable(0)
-        blocks_hid = [i for i, blk in enumerate(ap.blocks) for st in blk["s"] if i in live and st[0][1] and st[0][1][-1].endswith("FreezerFiles.head_id")]
-        blocks_head = [i for i, blk in enumerate(ap.blocks) for st in blk["s"] if i in live and st[0][1] and st[0][1][-1].endswith("FreezerFiles.head")] + \
-                      [c.bb for c in ap.calls if c.bb in live and c.dest and c.dest[1] and c.dest[1][-1].endswith("FreezerFiles.head")]
-        if ot and blocks_hid and blocks_head and all(ap.dominates(ot[0].bb, b) for b in blocks_hid + blocks_head):
+        # the rollover may live in append itself or in a helper append calls (roll_head_file ..): `ro` is the body that opens the next data file
+        ro = ap
+        if not ap.calls_to(FF + "open_truncated$"):
+            for c in ap.calls:
+                for cb in S.callee_bodies(c):
+                    if cb.crate == "ckb_freezer" and cb.calls_to(FF + "open_truncated$"):
+                        ro = cb
+        R.fn(ro)
+        ot = ro.calls_to(FF + "open_truncated$")
+        live = ro.reachable(0)
+        blocks_hid = [i for i, blk in enumerate(ro.blocks) for st in blk["s"] if i in live and st[0][1] and st[0][1][-1].endswith("FreezerFiles.head_id")]
+        blocks_head = [i for i, blk in enumerate(ro.blocks) for st in blk["s"] if i in live and st[0][1] and st[0][1][-1].endswith("FreezerFiles.head")] + \
+                      [c.bb for c in ro.calls if c.bb in live and c.dest and c.dest[1] and c.dest[1][-1].endswith("FreezerFiles.head")]
+        if ot and blocks_hid and blocks_head and all(ro.dominates(ot[0].bb, b) for b in blocks_hid + blocks_head):
             R.ok("paired/append/rollover", "head_id and head are switched together, after the new file was opened", [ot[0].where()])
         else:
-            R.bad("paired/append/rollover", "the rollover no longer assigns both head_id and head after open_truncated", [ap.where()])
-        sig = K.arith_of(ap, ot[0].args[1]) if ot else None
+            R.bad("paired/append/rollover", "the rollover no longer assigns both head_id and head after open_truncated", [ro.where()])
+        sig = K.arith_of(ro, ot[0].args[1]) if ot else None
         if sig == ["lit:1", "op:add"]:
             R.ok("affine/append/next-id", "the new data file is head_id + 1", [ot[0].where()])
         else:
@@ -86,13 +94,13 @@ def run(F, S, R, tier):
             R.bad("order/head-write", "Head::write no longer calls write_all", [hw.where()])
         # F21 (fixed): the data file that stops being the head is fsynced before it is replaced; sync_all() only ever reaches the current head, and
         # the caller deletes the frozen blocks from the kv store once freeze() returns
-        ot2 = ap.calls_to(FF + "open_truncated$")
-        syncs = [c for c in ap.calls_to(r"File::sync_all$|File::sync_data$") if K.src_match(ap.operand_sources(c.args[0]), [r"field:.*Head\.file"])]
+        ot2 = ro.calls_to(FF + "open_truncated$")
+        syncs = [c for c in ro.calls_to(r"File::sync_all$|File::sync_data$") if K.src_match(ro.operand_sources(c.args[0]), [r"field:.*Head\.file"])]
         R.sites += len(syncs)
         if not ot2:
-            R.bad("mustcall/rollover-sync/anchor-lost", "no open_truncated in append", [ap.where()])
-        elif syncs and all(any(ap.dominates(c.bb, o.bb) for c in syncs) for o in ot2):
-            nxt = ap.term(syncs[0].target) if syncs[0].target is not None else {}
+            R.bad("mustcall/rollover-sync/anchor-lost", "no open_truncated in append or in a helper it calls", [ap.where()])
+        elif syncs and all(any(ro.dominates(c.bb, o.bb) for c in syncs) for o in ot2):
+            nxt = ro.term(syncs[0].target) if syncs[0].target is not None else {}
             if nxt.get("k") == "call" and (nxt.get("callee") or "").endswith("Try::branch"):
                 R.ok("mustcall/rollover-sync", "the outgoing head file is fsynced (error aborts the append) before the next data file is opened", [syncs[0].where()])
             else:
